@@ -114,7 +114,7 @@ func (v Value) IsNilKnown() (isNil, known bool) {
 
 // Event is something a path did that a rule may be interested in.
 type Event struct {
-	Kind string  // "call", "mapupdate", "store", "delete", "lookup"
+	Kind string  // "call", "mapupdate", "store", "delete", "lookup", "cond" (Fn is "true"/"false", Args[0] the condition)
 	Fn   string  // call: callee
 	Loc  string  // store: the symbolic location
 	Args []Value // call: arguments; mapupdate: map, key, value; delete: map, key; store: value; lookup: map, key, ok
@@ -640,6 +640,8 @@ func (e *Eval) block(fr *frame, b *ssa.BasicBlock, prev *ssa.BasicBlock, from in
 			f2, s2 := fr.clone(), st.clone()
 			st.conds = append(st.conds, Cond{cv.Term(), true})
 			s2.conds = append(s2.conds, Cond{cv.Term(), false})
+			st.events = append(st.events, Event{Kind: "cond", Fn: "true", Args: []Value{cv}})
+			s2.events = append(s2.events, Event{Kind: "cond", Fn: "false", Args: []Value{cv}})
 			out := e.block(fr, b.Succs[0], b, 0, st, depth)
 			return append(out, e.block(f2, b.Succs[1], b, 0, s2, depth)...)
 		default:
